@@ -478,6 +478,45 @@ def check_shift(ctx, rep):
                   "tip heights must be the sampling times split along the last axis and results concatenated along the last axis")
 
 
+def check_rebuilds_keep_the_configuration(ctx, rep):
+    """C06.S (addition) — a transform that is rebuilt after construction (`self.transform = type(self.transform)(self)` when the model moves to another device) is the
+    transform that was configured: every construction of that attribute in `__init__` passes exactly the arguments the rebuild passes.  A constructor argument that only
+    `__init__` knows (the temperature of the smooth maximum) is lost by the rebuild: the forward map silently changes regime and the inverse no longer matches values made
+    before."""
+    n = 0
+    for mname in (TM,):
+        m = ctx.prog.module(mname)
+        for cname, cnode in m.classes.items():
+            init = next((b for b in cnode.body if isinstance(b, ast.FunctionDef) and b.name == '__init__'), None)
+            if init is None:
+                continue
+            built = {}
+            for st in ast.walk(init):
+                if isinstance(st, ast.Assign) and isinstance(st.value, ast.Call) and any(self_attr(t) for t in st.targets) and isinstance(st.value.func, ast.Name) and st.value.func.id[:1].isupper():
+                    built.setdefault(next(self_attr(t) for t in st.targets if self_attr(t)), []).append(st.value)
+            for fn in [b for b in cnode.body if isinstance(b, ast.FunctionDef) and b.name != '__init__']:
+                for st in ast.walk(fn):
+                    if not (isinstance(st, ast.Assign) and isinstance(st.value, ast.Call) and any(self_attr(t) in built for t in st.targets)):
+                        continue
+                    attr = next(self_attr(t) for t in st.targets if self_attr(t) in built)
+                    c = st.value
+                    dynamic = isinstance(c.func, ast.Call) and isinstance(c.func.func, ast.Name) and c.func.func.id == 'type'
+                    named = isinstance(c.func, ast.Name) and c.func.id[:1].isupper()
+                    if not (dynamic or named):
+                        continue
+                    n += 1
+                    sig = lambda k: (len(k.args), tuple(sorted(q.arg or '**' for q in k.keywords)))
+                    same = [b for b in built[attr] if dynamic or b.func.id == c.func.id]
+                    lost = [b for b in same if sig(b) != sig(c)]
+                    rep.check('C06.S', f"{cname}.{fn.name}::self.{attr}-rebuilt-as-configured", not lost, where(m, st),
+                              {'rebuild': norm_text(c)[:60], 'constructions': [norm_text(b)[:60] for b in same]},
+                              f"{cname}.{fn.name} rebuilds self.{attr} with `{norm_text(c)[:50]}` while __init__ builds it with `{norm_text(lost[0])[:60] if lost else ''}`: the arguments "
+                              f"only the constructor passes are back at their defaults after the rebuild (the smooth maximum becomes the hard one), so heights computed before and after "
+                              f"differ and inverse(forward(x)) ≠ x for values made earlier")
+    if n < 2:
+        rep.incomplete('C06.S', 'rebuilds', '', f"only {n} rebuilds of a constructor-built attribute found in the tree models (cuda / cpu of ReparameterizedTimeTreeModel expected)")
+
+
 def run(ctx, rep):
     from sa import callbind
     callbind.run_for(ctx, rep, 'C06', 8)
@@ -525,6 +564,7 @@ def run(ctx, rep):
     c02.check_leaf_index(ctx, rep, 'C06.F', 'tips::')
     # a parent is at least as old as EACH of its children: nothing in the tree modules looks at one child only (C02.N child-symmetry rule)
     c02.check_child_symmetry(ctx, RuleProxy(rep, 'C06.F', 'children::'))
+    check_rebuilds_keep_the_configuration(ctx, rep)
     rep.rule('C06.C', "every conversion of sampling dates into tip heights follows one convention in the four sign cases of (earliest, most recent) date: the date itself when the earliest is zero, most recent − date otherwise")
     check_date_conventions(ctx, rep)
     check_dates_stay_with_their_taxon(ctx, rep)
